@@ -112,6 +112,7 @@ type Knobs struct {
 	BlobRedirect   string // non-empty: blob GETs are answered with 307 to this host
 	ManifestPutNoLocation bool
 	DeleteBlob     bool
+	NoRangeOnJSON  bool // manifests and listings ignore Range (as most real registries do)
 }
 
 // Reg is one registry host.
@@ -193,8 +194,23 @@ func resp(status int, code string) *simnet.Response {
 
 var pathRe = regexp.MustCompile(`^/v2/(.+)/(manifests|blobs|tags|referrers)/(.*)$`)
 
-// Serve implements simnet.Host.
+// Serve implements simnet.Host. Every successful GET honours a Range request
+// header (the client resumes truncated bodies with it).
 func (g *Reg) Serve(req *simnet.Request) *simnet.Response {
+	r := g.serve(req)
+	if req.Method == "GET" && r.Status == 200 && req.Header.Get("Range") != "" && r.Header.Get("Content-Range") == "" && !g.K.NoRangeOnJSON {
+		rr := ServeBytes(req, r.Body, "")
+		for k, v := range r.Header {
+			if k != "Content-Length" {
+				rr.Header[k] = v
+			}
+		}
+		return rr
+	}
+	return r
+}
+
+func (g *Reg) serve(req *simnet.Request) *simnet.Response {
 	p := req.Path
 	if p == "/v2/" || p == "/v2" {
 		return resp(200, "")
